@@ -356,23 +356,38 @@ type Table struct {
 	Members []string
 }
 
-func (m *Member) Table(parts uint64) Table {
+func (m *Member) Table(parts uint64) Table { return m.table(parts, false) }
+
+// TableByIncarnation is Table with every member written as name#id: a member restarted under its old address has the
+// old name and a new id, and a table may list the incarnation that is gone.
+func (m *Member) TableByIncarnation(parts uint64) Table { return m.table(parts, true) }
+
+// Incarnation is the identity of this member as TableByIncarnation writes it.
+func (m *Member) Incarnation() string {
+	return fmt.Sprintf("%s#%d", m.Name, m.V.RoutingTable.This().ID)
+}
+
+func (m *Member) table(parts uint64, ids bool) Table {
+	ident := func(name string, id uint64) string {
+		if ids {
+			return fmt.Sprintf("%s#%d", name, id)
+		}
+		return name
+	}
 	t := Table{}
 	for p := uint64(0); p < parts; p++ {
 		var os, bs []string
 		for _, o := range m.V.Primary.PartitionByID(p).Owners() {
-			os = append(os, o.Name)
+			os = append(os, ident(o.Name, o.ID))
 		}
 		for _, o := range m.V.Backup.PartitionByID(p).Owners() {
-			bs = append(bs, o.Name)
+			bs = append(bs, ident(o.Name, o.ID))
 		}
 		t.Owners = append(t.Owners, os)
 		t.Backups = append(t.Backups, bs)
 	}
-	ms, err := m.V.RoutingTable.Discovery().GetMembers(), error(nil)
-	_ = err
-	for _, x := range ms {
-		t.Members = append(t.Members, x.Name)
+	for _, x := range m.V.RoutingTable.Discovery().GetMembers() {
+		t.Members = append(t.Members, ident(x.Name, x.ID))
 	}
 	sort.Strings(t.Members)
 	return t
